@@ -39,12 +39,14 @@ Proof.
     + destruct (stk s) as [|[[]| |] ?]; try discriminate E. destruct b; inversion E; subst; now rewrite ?Nat2Z.id.
     + discriminate E.
   - unfold retarget. cbn [fst snd]. destruct (is_branch oc) eqn:Hb; [|now rewrite E].
-    destruct oo as [|[k z| |]| | | | | |]; try now rewrite E.
+    destruct oo as [|vv| | | | | |]; try now rewrite E.
+    destruct vv; try now rewrite E.
     destruct oc; try discriminate Hb; cbn in E |- *; try discriminate E.
     + destruct (stk s) as [|[[]| |] ?]; try discriminate E. destruct b; inversion E; subst; reflexivity.
     + destruct (stk s) as [|[[]| |] ?]; try discriminate E. destruct b; inversion E; subst; reflexivity.
   - unfold retarget. cbn [fst snd]. destruct (is_branch oc) eqn:Hb; [|now rewrite E].
-    destruct oo as [|[k z| |]| | | | | |]; try now rewrite E.
+    destruct oo as [|vv| | | | | |]; try now rewrite E.
+    destruct vv; try now rewrite E.
     destruct oc; try discriminate Hb; cbn in E |- *; try discriminate E.
     + destruct (stk s) as [|[[]| |] ?]; inversion E; subst; reflexivity.
     + destruct (stk s) as [|[[]| |] ?]; inversion E; subst; reflexivity.
@@ -221,7 +223,9 @@ Proof.
   split; [repeat constructor|]. split; [repeat constructor|].
   intros m s. unfold gblock. cbn [run_block]. unfold gexec.
   (* Load *)
-  destruct x4 as [|[k z|b|n]| | | | | |]; try reflexivity.
+  destruct x4 as [|vv| | | | | |]; try reflexivity.
+  destruct vv; try reflexivity.
+  match goal with |- context [VStr ?q] => rename q into n end.
   cbn [exec]. destruct (str_eqb n underscore) eqn:Hu.
   { destruct x2 as [|v2|v2| | | | |]; reflexivity. }
   destruct (var_get (vars s) n) as [[v|id c]|] eqn:Hv.
@@ -288,7 +292,9 @@ Proof.
   cbn [build_rep resolve env_get N.eqb Pos.eqb] in Hb. inversion Hb; subst rep; clear Hb.
   split; [repeat constructor|]. split; [repeat constructor|].
   intros m s. unfold gblock. cbn [run_block]. unfold gexec.
-  destruct x2 as [|[k z|b|n]| | | | | |]; try discriminate Hs.
+  destruct x2 as [|vv| | | | | |]; try discriminate Hs.
+  destruct vv; try discriminate Hs.
+  match goal with |- context [VStr ?q] => rename q into n end.
   destruct x1 as [|v1|v1|l1|id1 lit1| | |]; try discriminate Hmk; try reflexivity;
     try (destruct lit1; [discriminate Hlit|]);
     cbn [exec set_stk stk vars line out]; destruct (var_get (vars s) n); destruct s; reflexivity.
